@@ -7,7 +7,10 @@
       node's update and runs its action list with the recursive emit) followed by the release that follows the call in
       _emit - unless the call unwinds (SRaise from a node that is not a coroutine, SFuel), in which case there is no release
       and every later downstream is skipped ([deliver_call_release], [deliver_stop]).
-   3. One unfolding of [push] is the generated _emit with `downstream.update` instantiated by [call_update] over the
+   3. One turn of the loop of _emit is the model's [hand]: the test `downstream not in self.downstreams` is [attached]
+      (membership in [downs] of the world at the time of the test); a child that has left the live set since the snapshot
+      was taken is not called and the reference retained for it is released; otherwise the turn is [deliver].
+   4. One unfolding of [push] is the generated _emit with `downstream.update` instantiated by [call_update] over the
       recursive push and `self.downstreams` read through [downs] ([bridge_emit]).
 
    An edit of the source that changes what these methods do changes the generated terms, and these proofs stop checking. *)
@@ -141,44 +144,61 @@ Proof. unfold wrun, wbind. destruct (m w); reflexivity. Qed.
 Ltac wstep := repeat (first [rewrite wrun_assoc | rewrite wrun_rd | rewrite wrun_ret | rewrite wrun_retain_refs
                              | rewrite wrun_release_refs]; cbv beta).
 
-(* the loop: [body] is whatever the translator produced for one iteration; it has to be the call followed - when the
-   call returned - by joining what it returned to `result` and by the release *)
+Lemma fold_hand_stop emitfrom g depth n x m ds : forall w s, status_go s = false ->
+  fold_left (hand emitfrom g depth n x m) ds (w, s) = (w, s).
+Proof.
+  induction ds as [|d ds IH]; intros w s H; cbn [fold_left]; [reflexivity|].
+  rewrite hand_stop by exact H. apply IH, H.
+Qed.
+
+(* what one iteration of the loop has to be, whatever its shape in the source: the membership test on the CURRENT world;
+   when the child is still there, the call followed - when the call returned - by joining what it returned to `result`
+   and by the release; when it is gone, the release alone *)
+Definition turn_spec emitfrom g depth n x m (body : nat -> aws -> W aws) : Prop :=
+  forall d s w, body d s w =
+     if node_in d (downs g w n) then
+       let '(w', s') := call_update emitfrom g depth n d w x m in
+       if status_go s' then WRet (status_join s s') (release w' m 1) else WExc w' s'
+     else WRet s (release w m 1).
+
+(* the loop: [body] is whatever the translator produced for one iteration *)
 Lemma emit_loop emitfrom g depth n x m (body : nat -> aws -> W aws) :
-  (forall d s w, body d s w =
-     let '(w', s') := call_update emitfrom g depth n d w x m in
-     if status_go s' then WRet (status_join s s') (release w' m 1) else WExc w' s') ->
+  turn_spec emitfrom g depth n x m body ->
   forall ds w s, status_go s = true ->
-  fold_left (deliver emitfrom g depth n x m) ds (w, s) = wrun (wfor ds s body) w.
+  fold_left (hand emitfrom g depth n x m) ds (w, s) = wrun (wfor ds s body) w.
 Proof.
   intros Hbody. induction ds as [|d ds IH]; intros w s Hs; cbn [fold_left wfor].
   - reflexivity.
-  - rewrite deliver_call_release by exact Hs. unfold wrun, wbind. rewrite Hbody.
-    destruct (call_update emitfrom g depth n d w x m) as [w' s']. destruct (status_go s') eqn:Hg.
-    + rewrite IH by (apply status_go_join; assumption). reflexivity.
-    + apply fold_deliver_stop, Hg.
+  - unfold wrun, wbind. rewrite Hbody. change (node_in d (downs g w n)) with (attached g w n d).
+    destruct (attached g w n d) eqn:Ha.
+    + rewrite hand_attached by exact Ha. rewrite deliver_call_release by exact Hs.
+      destruct (call_update emitfrom g depth n d w x m) as [w' s']. destruct (status_go s') eqn:Hg.
+      * rewrite IH by (apply status_go_join; assumption). reflexivity.
+      * apply fold_hand_stop, Hg.
+    + rewrite hand_gone by assumption. rewrite IH by exact Hs. reflexivity.
 Qed.
 
 (* the part of _emit from `result = []` on: snapshot of the downstreams, loop, filtered return *)
 Lemma emit_tail emitfrom g depth n x m (body : nat -> aws -> W aws) w :
-  (forall d s w, body d s w =
-     let '(w', s') := call_update emitfrom g depth n d w x m in
-     if status_go s' then WRet (status_join s s') (release w' m 1) else WExc w' s') ->
-  fold_left (deliver emitfrom g depth n x m) (downs g w n) (w, SOk) =
+  turn_spec emitfrom g depth n x m body ->
+  fold_left (hand emitfrom g depth n x m) (downs g w n) (w, SOk) =
   wrun (wbind (wrd (fun w => downs g w n)) (fun ds =>
         wbind (wfor ds aws_nil body) (fun st => wret (aws_drop_none st)))) w.
 Proof.
   intros Hbody. rewrite wrun_rd, wrun_tail. apply (emit_loop _ _ _ _ _ _ body Hbody). reflexivity.
 Qed.
 
-(* one iteration as the translator produced it: whatever its shape, unfold every bind, split on what the call returned
-   (and on the uninterpreted `type(r) is list`), and compare *)
+(* one iteration as the translator produced it: whatever its shape, unfold every bind, split on the membership test, on
+   what the call returned (and on the uninterpreted `type(r) is list`), and compare *)
 Ltac emit_body :=
   let d := fresh "d" in let s := fresh "s" in let w := fresh "w" in
-  intros d s w; cbv [wbind wcall];
-  match goal with |- context [call_update ?e ?g ?dp ?n d w ?x ?m] =>
+  unfold turn_spec; intros d s w; cbv [wbind wcall wrd];
+  match goal with |- context [node_in d ?l] => destruct (node_in d l) end;
+  cbv beta iota zeta delta [negb];
+  try match goal with |- context [call_update ?e ?g ?dp ?n d w ?x ?m] =>
     destruct (call_update e g dp n d w x m) as [?w2 ?s2] end;
   cbv beta iota zeta;
-  match goal with |- context [status_go ?s2] => destruct (status_go s2); [|reflexivity] end;
+  try match goal with |- context [status_go ?s2] => destruct (status_go s2); [|reflexivity] end;
   repeat match goal with |- context [aw_is_list ?r] => destruct (aw_is_list r) end;
   cbv [wret aws_extend aws_append negb]; cbv beta iota zeta;
   rewrite ?bridge_run_release_refs; reflexivity.
@@ -187,7 +207,7 @@ Ltac emit_body :=
 (* general form: any emit of the downstreams *)
 Theorem bridge_emit_gen : forall emitfrom g depth n w x m,
   (let ds := downs g w n in
-   fold_left (deliver emitfrom g depth n x m) ds (retain w m (Z.of_nat (length ds)), SOk))
+   fold_left (hand emitfrom g depth n x m) ds (retain w m (Z.of_nat (length ds)), SOk))
   = gen_emit (fun w => downs g w n) (call_update emitfrom g depth n) w x m.
 Proof.
   intros emitfrom g depth n w x m. cbv zeta. unfold gen_emit, gen_body__emit.
